@@ -52,6 +52,20 @@ Definition model08 (c : case08) : gobs :=
 (** all positions of the tree in pre-order *)
 Definition all_pre (t : tree) : list pos := pre_positions t [].
 
+(** no two children of one node have names that compare equal (the hypothesis of the
+    get-agreement clause and of C08_strict_agrees_with_get) *)
+Fixpoint distinct_names (ic : bool) (l : list str) : bool :=
+  match l with
+  | [] => true
+  | x :: r => negb (existsb (fun y => eq_name ic x y) r) && distinct_names ic r
+  end.
+Fixpoint sibling_unique_b (nm : id -> str) (ic : bool) (t : tree) : bool :=
+  match t with
+  | T _ cs =>
+      distinct_names ic (map (fun c => nm (label c)) cs)
+      && (fix all (l : list tree) : bool := match l with [] => true | c :: r => sibling_unique_b nm ic c && all r end) cs
+  end.
+
 Definition spec08 (c : case08) : bool :=
   let '(t, names, p, path, sep, ic, rx, o, og) := c in
   let nm := nm_of names in
@@ -81,7 +95,7 @@ Definition spec08 (c : case08) : bool :=
     | GErr e => match e with ResolverError | RootResolverError | ChildResolverError => true | _ => false end
     end
     && (* wildcard-free: agrees with get (same node first, same error class) *)
-       (if existsb has_wild (split sep path) then true
+       (if existsb has_wild (split sep path) || negb (sibling_unique_b nm ic t) then true
         else match o, og with
              | GList [x], GList [y] => pos_eqb x y
              | GErr e, GErr e' => exn_eqb e e'
